@@ -13,12 +13,12 @@ on b) and `c`; select `c`.  Ranging `a, b, c` moves `a` to the disabled set with
 -/
 namespace CV.Sel.Neg
 
-def svc (deps : AL Dep) : Svc :=
-  { image := "i", profiles := [], deps := deps, nets := [], vols := [], secrets := [], build := none, configs := [] }
+def svc (name : String) (deps : AL Dep) : Svc :=
+  { name := name, image := "i", profiles := [], deps := deps, nets := [], vols := [], secrets := [], build := none, configs := [] }
 
-def a : String × Svc := ("a", svc [("b", ⟨true, "service_started"⟩)])
-def b : String × Svc := ("b", svc [])
-def c : String × Svc := ("c", svc [])
+def a : String × Svc := ("a", svc "a" [("b", ⟨true, "service_started"⟩)])
+def b : String × Svc := ("b", svc "b" [])
+def c : String × Svc := ("c", svc "c" [])
 
 def mk (services : AL Svc) : Proj :=
   { services := services, disabled := [], profiles := [], networks := [], volumes := [], secrets := [], configs := [] }
